@@ -117,7 +117,7 @@ def attach_replays(chk):
 def run(chk):
     quick = chk.tier == "quick"
     n, unis = (2000, 1) if quick else (15000, 3)
-    chk.level = "differential"
+    chk.level = "proof"
     chk.coverage["rule"] = RULE
     chk.assumptions += [
         "Coq 8.16.1 kernel; extraction ExtrOcamlBasic only; the reference executor coq/lib/Exec.v extracted into bin/model_exec "
@@ -199,7 +199,7 @@ def replay(chk, path):
     """Re-run the self-contained case of a replay file through the engine and the reference executor."""
     r = json.load(open(path))
     case = r.get("case")
-    chk.level = "differential"
+    chk.level = "proof"
     chk.coverage["rule"] = "replay of %s" % path
     exe = builds(chk)
     if exe is None:
